@@ -37,6 +37,10 @@ package app
 // from the application context that are written (field stores, map updates, deletes; objects the writer allocated itself
 // excepted) are exactly the ones listed, each group with the reason it cannot carry a failed transaction's effect into
 // the next one. A new field written there is a new, failing obligation: maywrite[<field>].
+// ... and no package-level variable of the module is written on the way (it would survive the discarded session just like an
+// in-memory field); the one exception is the sync.Pool of Keccak hashers of the EVM bloom filter (vm.hasherPool: Get/Put of
+// scratch objects that are reset before use).
+//@   nowrite @globals @except:vm.hasherPool         // C06.no-globals
 //@   longlived app.context                       // C06.store-memo
 // re-pointing of the shared store objects (WithState / WithPrefix / WithHeight / WithLevel): which State they point to is C07's subject
 //@   maywrite balance.NesterAccountKeeper.state, balance.Store.State, bid_data.BidConvStore.prefix, bid_data.BidConvStore.state     // C06.store-memo
@@ -142,3 +146,8 @@ package app
 // is a passed, completed configuration update runs the governance update functions in CheckTx; those call SetupOpt /
 // SetOptions on the shared store objects, so the node that checked it switches options before the others do.
 //@   nowrite fees.Store.feeOpt, ons.DomainStore.opt, governance.ProposalStore.proposalOptions      // C07.checktx-options
+// Process-wide state: a package-level variable written by a mempool check (a memo, a counter, a cache keyed by transaction
+// content) is read by the consensus connection of the same process and by no other node. Nothing in the call graph of a
+// CheckTx stores into a package-level variable of the module, sets or deletes an entry of a map held by one, or hands the
+// address of one to a function outside the module (sync.Map.Store, atomic.Add, Once.Do ...).
+//@   nowrite @globals                               // C07.checktx-globals
